@@ -25,6 +25,56 @@ class Case:
         self.impl_out = None
         self.model_out = None
 
+def meta_to_json(x):
+    """JSON-safe encoding that keeps tuples and non-string dict keys (replays must rebuild the exact meta)"""
+    if isinstance(x, tuple):
+        return {"__tuple__": [meta_to_json(v) for v in x]}
+    if isinstance(x, list):
+        return [meta_to_json(v) for v in x]
+    if isinstance(x, (set, frozenset)):
+        return {"__set__": [meta_to_json(v) for v in sorted(x, key=repr)]}
+    if isinstance(x, dict):
+        if all(isinstance(k, str) for k in x):
+            return {k: meta_to_json(v) for k, v in x.items()}
+        return {"__dict__": [[meta_to_json(k), meta_to_json(v)] for k, v in x.items()]}
+    if isinstance(x, float) and (x != x or x in (float("inf"), float("-inf"))):
+        return {"__float__": repr(x)}
+    if isinstance(x, (int, float, str, bool)) or x is None:
+        return x
+    from fractions import Fraction
+    if isinstance(x, Fraction):
+        return {"__fraction__": [str(x.numerator), str(x.denominator)]}
+    return {"__repr__": repr(x)}
+
+def meta_from_json(x):
+    if isinstance(x, list):
+        return [meta_from_json(v) for v in x]
+    if isinstance(x, dict):
+        if "__tuple__" in x: return tuple(meta_from_json(v) for v in x["__tuple__"])
+        if "__set__" in x: return set(meta_from_json(v) for v in x["__set__"])
+        if "__dict__" in x: return {meta_from_json(k): meta_from_json(v) for k, v in x["__dict__"]}
+        if "__float__" in x: return float(x["__float__"])
+        if "__fraction__" in x:
+            from fractions import Fraction
+            return Fraction(int(x["__fraction__"][0]), int(x["__fraction__"][1]))
+        if "__repr__" in x: return x["__repr__"]
+        return {k: meta_from_json(v) for k, v in x.items()}
+    return x
+
+def oracle_name(f):
+    if f is None:
+        return None
+    return f"{getattr(f, '__module__', 'props')}.{getattr(f, '__name__', '?')}"
+
+def resolve_oracle(name):
+    """inverse of oracle_name for module-level functions of props / oracles (lambdas and closures do not replay)"""
+    if not name:
+        return None
+    mod, _, fn = name.rpartition(".")
+    import sys
+    m = sys.modules.get(mod) or sys.modules.get("props")
+    return getattr(m, fn, None) or getattr(sys.modules.get("props"), fn, None) or getattr(sys.modules.get("oracles"), fn, None)
+
 def same_output(io, mo, c):
     return io == mo
 
